@@ -86,8 +86,11 @@ type method struct {
 }
 
 var (
-	vF64sNaN = []float64{math.NaN(), 1, math.Inf(1), math.Inf(-1)}
-	vF32sNaN = []float32{float32(math.NaN()), float32(math.Inf(1))}
+	vStr20000   = strings.Repeat("s", 20000)
+	vStr60000   = strings.Repeat("S", 60000)
+	vBytes65000 = []byte(strings.Repeat("b", 65000))
+	vF64sNaN    = []float64{math.NaN(), 1, math.Inf(1), math.Inf(-1)}
+	vF32sNaN    = []float32{float32(math.NaN()), float32(math.Inf(1))}
 )
 
 func methods() []method {
@@ -173,6 +176,11 @@ func methods() []method {
 		{"Err/nil", func(e *zerolog.Event) *zerolog.Event { return e.Err(nil).AnErr("k", nil) }, nil}, // (Array.Err(nil) goes through AppendInterface: outside the statement's "plain error")
 		{"RawJSON/empty", func(e *zerolog.Event) *zerolog.Event { return e.RawJSON("k", []byte("{}")) }, nil},
 		{"Type/nil", func(e *zerolog.Event) *zerolog.Event { return e.Type("k", nil) }, nil},
+		// values far larger than the 500-byte initial buffer but within the 64 KiB pooling threshold: once warm
+		// the grown buffer is recycled (a buffer whose capacity landed exactly ON the threshold included)
+		{"Str/big20000", func(e *zerolog.Event) *zerolog.Event { return e.Str("k", vStr20000) }, nil},
+		{"Str/big60000", func(e *zerolog.Event) *zerolog.Event { return e.Str("k", vStr60000) }, nil},
+		{"Bytes/big65000", func(e *zerolog.Event) *zerolog.Event { return e.Bytes("k", vBytes65000) }, nil},
 		// non-finite floats (rendered as strings), negative zero, integers at their extremes
 		{"Float64/nan", func(e *zerolog.Event) *zerolog.Event { return e.Float64("k", math.NaN()).Float64("i", math.Inf(-1)) }, func(a *zerolog.Array) *zerolog.Array { return a.Float64(math.NaN()).Float64(math.Inf(1)) }},
 		{"Float32/nan", func(e *zerolog.Event) *zerolog.Event {
@@ -327,6 +335,17 @@ func main() {
 			}
 			if strings.Contains(ms[i].name, "/") && len(chain) >= 2 {
 				continue // value-class variants: alone, and in every position of pairs
+			}
+			if strings.Contains(ms[i].name, "/big") {
+				twoBig := false
+				for _, j := range chain {
+					if strings.Contains(ms[j].name, "/big") {
+						twoBig = true
+					}
+				}
+				if twoBig {
+					continue // two large values together exceed the 64 KiB pooling threshold: outside the statement
+				}
 			}
 			rec(append(append([]int{}, chain...), i), arr)
 		}
